@@ -19,6 +19,7 @@ class Sc (α : Type) extends Add α, Sub α, Mul α, Div α, Neg α, Zero α, On
   gtReal : α → Float → Bool
   sqrtRe : α → Float
   ofFloat : Float → α
+  reOf : α → Float
 
 instance : Sc Float where
   dec l := some l
@@ -27,6 +28,7 @@ instance : Sc Float where
   gtReal s t := decide (t < s)
   sqrtRe s := Float.sqrt s
   ofFloat x := x
+  reOf x := x
   isZ x := x == 0
 
 def decCx : List Float → Option (List (Cx Float))
@@ -45,6 +47,7 @@ instance : Sc (Cx Float) where
   -- real part of the principal square root
   sqrtRe z := Float.sqrt ((Float.sqrt (z.re * z.re + z.im * z.im) + z.re) / 2)
   ofFloat x := ⟨x, 0⟩
+  reOf z := z.re
   isZ z := z.re == 0 && z.im == 0
 
 section generic
@@ -158,6 +161,31 @@ def opCg (j : Json) : Option Json := do
     let run := cgRun fops Aop M' maxiter (cgTolSq tol atol bn) maxiter (cgInit fops Aop M' b start)
     some (ok (jObj [("x", jV x.toList), ("num_iter", jN info.numIter), ("rel_res", jF info.relRes),
       ("tolsq", jF (cgTolSq tol atol bn)), ("trace", jArr (run.map stJson))]))
+
+/-- `_vdot_real_tree`, `.astype(dtype)`, `.real` of the jax solver -/
+def jops : JaxOps α Float (FVec α) :=
+  { vdotRe := fun x y => Sc.reOf (FVec.inner x y), ofReal := Sc.ofFloat, re := Sc.reOf }
+
+def opJaxCg (j : Json) : Option Json := do
+  let n ← fNat? j "n"
+  let A := rowsOf (α := α) (← vecField? j "A") n n
+  let Mm ← optVec? (α := α) j "M"
+  let b : FVec α := .ofList (← vecField? j "b")
+  let x0 ← optVec? (α := α) j "x0"
+  let tol ← fFloat? j "tol"
+  let atol ← fFloat? j "atol"
+  let maxiter ← fNat? j "maxiter"
+  let Aop := FVec.matVec A
+  let Mop : Option (FVec α → FVec α) := Mm.map fun l => FVec.matVec (rowsOf l n n)
+  -- `_isolve`: `x0 = zeros_like(b)` when not given
+  let start : FVec α := match x0 with | some l => .ofList l | none => ⟨Array.replicate n 0⟩
+  let x := jaxCg jops Aop Mop b start tol atol maxiter
+  let atol2 := jaxAtol2 tol atol (jops.vdotRe b b)
+  let run := jaxCgRun jops Aop (precondOf Mop) Mop.isNone maxiter atol2 maxiter (jaxCgInit jops Aop (precondOf Mop) b start)
+  let rsOf := fun (s : JaxCGState α (FVec α)) => if Mop.isNone then jops.re s.gamma else jops.vdotRe s.r s.r
+  let k := match run.getLast? with | some s => s.k | none => 0
+  some (ok (jObj [("x", jV x.toList), ("k", jN k), ("atol2", jF atol2),
+    ("trace", jArr (run.map fun s => jObj [("x", jV s.x.toList), ("p", jV s.p.toList), ("rs", jF (rsOf s)), ("k", jN s.k)]))]))
 
 def opCgScan (j : Json) : Option Json := do
   let n ← fNat? j "n"
@@ -416,8 +444,11 @@ def opGolden (j : Json) : Option Json := do
   if n = 0 then some (err "value") else
   let f := polyFam coefs.toArray n
   let gr : Float := goldenRatio
-  let (x, s) := golden gr f a b (c.map fun l => vecOf l n) xtol maxiter
-  let run := goldRun gr f xtol maxiter (goldInit gr a b (c.map fun l => vecOf l n))
+  -- `csort`: the ordered interior points of fixes/golden-c-beyond-d.patch (used once the finding is `fixed:`)
+  let csort := (fBool? j "csort").getD false
+  let cv := c.map fun l => vecOf l n
+  let (x, s) := if csort then goldenSorted gr f a b cv xtol maxiter else golden gr f a b cv xtol maxiter
+  let run := goldRun gr f xtol maxiter (if csort then goldInitSorted gr a b cv else goldInit gr a b cv)
   some (ok (jObj [("x", jFs (List.ofFn x)), ("gr", jF gr), ("final", gstJson s), ("trace", jArr (run.map gstJson))]))
 
 def handler : Handler := fun op j =>
@@ -425,6 +456,7 @@ def handler : Handler := fun op j =>
   match op with
   | "cg" => if cplx then opCg (α := Cx Float) j else opCg (α := Float) j
   | "cgscan" => if cplx then opCgScan (α := Cx Float) j else opCgScan (α := Float) j
+  | "jaxcg" => if cplx then opJaxCg (α := Cx Float) j else opJaxCg (α := Float) j
   | "lstsq" => if cplx then opLstsq (α := Cx Float) j else opLstsq (α := Float) j
   | "atad" => if cplx then opAtad (α := Cx Float) j else opAtad (α := Float) j
   | "conv" => if cplx then opConv (α := Cx Float) j else opConv (α := Float) j
